@@ -1736,6 +1736,23 @@ func main() {
 				partBuilder(c, m, ch, idx, k)
 			}
 		}
+		// several consecutive mined blocks, started just below every height where the header-hash version
+		// changes (hard forks 5, 8, 9) and at a random height
+		starts := map[int]bool{}
+		if c.Thorough() {
+			starts[2+c.Rng.Intn(len(ch.blocks)-3)] = true
+		}
+		for _, hf := range []int{5, 8, 9} {
+			if h := spec.cfg.GetHF(hf); h != nil && h.Int64() >= 3 && int(h.Int64()) <= len(ch.blocks) {
+				starts[int(h.Int64())-1] = true
+			}
+		}
+		for k := 2; k < len(ch.blocks); k++ {
+			if starts[k] {
+				hf5 := spec.cfg.GetHF(5)
+				partMiningRun(c, m, ch, idx, k, 3, hf5 != nil && int(hf5.Int64())-1 == k, nil)
+			}
+		}
 		t3 := time.Now()
 		tnote := fmt.Sprintf("chain %d timing: commitments %.1fs histories %.1fs builder %.1fs", idx, t1.Sub(t0).Seconds(), t2.Sub(t1).Seconds(), t3.Sub(t2).Seconds())
 		cache, cname := &core.CacheConfig{Disabled: true}, "archive"
